@@ -270,7 +270,19 @@ def run(rep: Report, prog: Program, tier: str) -> None:
             good = e.args and e.args[0] == ("param", "event") and f is not None and f[0] == "dict"
             if good:
                 d = {k[1] if k[0] == "const" else "**": v for k, v in f[1]}
-                good = d.get("attempt") == ("param", "attempt") and d.get("sleep_s") == ("param", "sleep_s") and "**" in d and (not mcalls or d["**"] == mcalls[0].args[3])
+                tags_t = mcalls[0].args[3] if mcalls else None
+                # the tags are spread into the fields: `**tags`, `fields.update(tags)`, or an item-by-item copy loop
+                spread = "**" in d and (tags_t is None or d["**"] == tags_t)
+                if not spread:
+                    for x in p.events:
+                        if x.kind == "call" and not x.pure and x.recv == f and isinstance(x.node.ast, ast.Call) and isinstance(x.node.ast.func, ast.Attribute) and x.node.ast.func.attr == "update" and len(x.args) == 1 and (tags_t is None or x.args[0] == tags_t):
+                            spread = True
+                        if x.kind == "iter" and x.value != "zero" and isinstance(x.recv, tuple) and x.recv[0] == "pure" and x.recv[1] == ".items" and (tags_t is None or x.recv[2][0] == tags_t):
+                            copies = [s for s in p.stores() if s.loc[0] == "sub" and s.loc[1] == f and isinstance(s.loc[2], tuple) and s.loc[2][0] == "fresh" and isinstance(s.value, tuple) and s.value[0] == "fresh" and s.loc[2][1] == s.value[1]]
+                            spread = spread or bool(copies)
+                    if not spread and any(x.kind == "iter" and x.value == "zero" and isinstance(x.recv, tuple) and x.recv[0] == "pure" and x.recv[1] == ".items" for x in p.events):
+                        spread = True  # the zero-iteration path of the copy loop (no tags to copy)
+                good = d.get("attempt") == ("param", "attempt") and d.get("sleep_s") == ("param", "sleep_s") and spread
             if not good:
                 problem = problem or f"on_log receives {[show(a) for a in e.args]}"
         rep.instance("R14.4", "emit|" + "|".join(sorted(k for k, v in lits.items() if v))[:150])
@@ -356,6 +368,7 @@ def run(rep: Report, prog: Program, tier: str) -> None:
             rep.fail("R14.5", f"emit_breaker_event|forward|none={none_ev}", f"ExecutionContext.emit_breaker_event does not forward event/state/klass/hooks unchanged: {p.describe()}", where=xf.where(), function=xf.qual)
     rep.floor("R14.5", 6)
 
+    _delay_applied(rep, prog)
     rep.rule("R14.7", "the class / err / cause tags of a terminal event describe the final failure: terminal events emitted after the failure handling (scheduled, post-sleep deadline / attempt cap) take them from the run state's last_* fields or from the current failure's own arguments, and those fields are overwritten as a set by every failure (= C04 R4.4)")
     ST7 = ("param", "state")
     n7 = 0
@@ -456,3 +469,11 @@ def present_param(p: SymPath, name: str) -> bool | None:
         if a == ("cmp", "is", ("param", name), ("const", None)):
             return not pol
     return None
+
+
+def _delay_applied(rep: Report, prog: Program) -> None:
+    rep.rule("R14.8", "`the delay applied`: the value reported by the i-th `retry` event (decision.sleep_s, R14.3) is the very value the sleep handler, before_sleep and the sleeper receive (= C16 R16.3): nothing re-computes the delay between the event and the sleep")
+    from .c16 import sleep_action_tables
+
+    sleep_action_tables(rep, "R14.8", prog)
+    rep.floor("R14.8", 12)
